@@ -243,7 +243,7 @@ pub fn evaluate_opts(inst: &v1::Instance, state: &v1::State, o: &EvalOpts) -> Re
         let x = state.entries[id];
         if let Some((lo, hi)) = bounds.get(id) {
             // exact comparison against lo - atol / hi + atol with a guard band for the f64 subtraction
-            let guard = |b: f64| 8.0 * f64::EPSILON * (b.abs().max(atol).max(x.abs()));
+            let guard = |b: f64| 2.0 * f64::EPSILON * (b.abs().max(atol).max(x.abs()));
             if lo.is_finite() {
                 let d = q(x) - (q(*lo) - q(atol)); // >= 0 accepted
                 if d.abs() <= q(guard(*lo)) && !d.is_zero() {
